@@ -106,10 +106,12 @@ def write_tree(root, files):
             f.write(text)
 
 
-def run_generator(xml_root, out_root, spelling="absolute"):
+def run_generator(xml_root, out_root, spelling="absolute", prior_files=None, files=None):
     """Run the real generator; returns (ok, exception_or_None, captured_stdout).
     spelling: how the two roots are written - 'absolute', 'dot' (input root = working directory, given as '.'),
-    'relative' (both relative to the working directory)."""
+    'relative' (both relative to the working directory).
+    prior_files: an earlier revision of the specification; the same generator instance reads it first (into a
+    throw-away output directory, whether it likes it or not), then the files on disk are replaced by `files`."""
     from pathlib import Path
 
     gen = generator_class()
@@ -117,7 +119,17 @@ def run_generator(xml_root, out_root, spelling="absolute"):
     cwd = os.getcwd()
     try:
         with contextlib.redirect_stdout(buf):
-            if spelling == "dot":
+            if prior_files is not None:
+                write_tree(xml_root, prior_files)
+                g = gen(Path(xml_root))
+                try:
+                    g.generate(Path(out_root + ".earlier"))
+                except Exception:
+                    pass
+                shutil.rmtree(out_root + ".earlier", ignore_errors=True)
+                write_tree(xml_root, files)
+                g.generate(Path(out_root))
+            elif spelling == "dot":
                 os.chdir(xml_root)
                 gen(Path(".")).generate(Path(out_root))
             elif spelling == "relative":
@@ -159,7 +171,7 @@ def copy_static_package(dst_parent):
     return dst
 
 
-def full(files, do_import=True, spelling="absolute", stale_output=False):
+def full(files, do_import=True, spelling="absolute", stale_output=False, prior_files=None, earlier_output_files=None):
     """Stage a spec tree: returns (Staged or None, ok, error, stdout)."""
     root = scratch("vf-full-")
     xml_root = os.path.join(root, "xml")
@@ -169,7 +181,14 @@ def full(files, do_import=True, spelling="absolute", stale_output=False):
     os.makedirs(pkg_parent)
     pkg = copy_static_package(pkg_parent)
     gen_dir = os.path.join(pkg, "protocol", "_generated")
-    ok, err, out = run_generator(xml_root, gen_dir, spelling)
+    if earlier_output_files is not None:
+        # the output directory still holds what an earlier revision of the specification (same types, some of them
+        # in other directories) was generated into
+        prev_root = os.path.join(root, "xml-earlier")
+        os.makedirs(prev_root)
+        write_tree(prev_root, earlier_output_files)
+        run_generator(prev_root, gen_dir)
+    ok, err, out = run_generator(xml_root, gen_dir, spelling, prior_files, files)
     if ok and stale_output:
         # the output directory is not empty: every file of the run above is replaced by something of the same
         # size but other content (what an earlier version of the spec with equally long names leaves behind),
